@@ -1,5 +1,6 @@
 import RSocketModel.Credit
 import RSocketModel.Engine.Step
+import RSocketModel.Engine.Invariants
 import RSocketModel.Proofs.CollectorLemmas
 /-!
 # C06 — Request-n flow control: emission never exceeds granted credit
@@ -219,6 +220,48 @@ theorem c06_credit_forwarded_exact (st : Engine.State) (hc : st.closed = false) 
     · left
       simp [Engine.step, Engine.recvStep, hc, Engine.isFragmentable, h0, Engine.isInitiate, ho, hobj, Engine.frameReceived, hk,
         Engine.State.emit]
+
+open Engine in
+/-- On a channel, either side: a REQUEST_N for a registered channel whose local publisher exists is
+handed to that publisher's `Subscription.request` with exactly its value and changes nothing else -
+in *every* state of the channel, in particular whether or not the peer's own direction has
+already completed. -/
+theorem c06_channel_credit_forwarded (st : Engine.State) (hc : st.closed = false) (oid sid n : Nat) (s : Engine.Stream)
+    (h0 : sid ≠ 0) (hreg : st.oidOf sid = some oid) (hobj : st.obj oid = some s)
+    (hk : s.kind = .chResp ∨ s.kind = .chReq) (hp : s.hasPub = true) (hs : s.setupDone = true) (b : Behaviour) :
+    Engine.step st (.recv { ty := .requestN, sid := sid, n := n } b) = (st, [.pubRequest oid n]) := by
+  rcases hk with hk | hk <;>
+    simp [Engine.step, Engine.recvStep, hc, Engine.isFragmentable, h0, Engine.isInitiate, hreg, hobj, Engine.frameReceived, hk, hp, hs,
+      Engine.State.emit]
+
+open Engine in
+/-- The history a seeded change broke: the peer's last element arrives with COMPLETE (its direction
+is over, ours is not), then it grants more credit: the grant still reaches the publisher. -/
+theorem c06_credit_after_peer_completed (st : Engine.State) (hc : st.closed = false) (oid sid n : Nat) (s : Engine.Stream)
+    (h0 : sid ≠ 0) (hreg : st.oidOf sid = some oid) (hobj : st.obj oid = some s)
+    (hcache : st.cache.find? (·.1 == sid) = none)
+    (hk : s.kind = .chResp ∨ s.kind = .chReq) (hp : s.hasPub = true) (hs : s.setupDone = true) (hsub : s.subscribed = true)
+    (hr : s.recvComplete = false) (hsc : s.sentComplete = false) (d : List Nat) (b b' : Behaviour) :
+    (Engine.step st (.recv { ty := .payload, sid := sid, next := true, complete := true, data := d } b)).2 = [.onNext oid d true] ∧
+    (Engine.step (Engine.step st (.recv { ty := .payload, sid := sid, next := true, complete := true, data := d } b)).1
+      (.recv { ty := .requestN, sid := sid, n := n } b')).2 = [.pubRequest oid n] := by
+  have hstep : Engine.step st (.recv { ty := .payload, sid := sid, next := true, complete := true, data := d } b)
+      = (markChannel st oid s true false, [.onNext oid d true]) := by
+    rcases hk with hk | hk <;>
+      simp [Engine.step, Engine.recvStep, hc, Engine.isFragmentable, h0, Engine.isInitiate, hreg, hobj, Engine.frameReceived, hk, hr, hsub,
+        Engine.State.emit, Engine.cacheAppend, hcache]
+  have hmc : markChannel st oid s true false = st.setObj oid { s with recvComplete := true } := by
+    simp [markChannel, hr, hsc]
+  rw [hstep]
+  refine ⟨rfl, ?_⟩
+  show (Engine.step (markChannel st oid s true false) _).2 = _
+  rw [hmc]
+  have hobj' : (st.setObj oid { s with recvComplete := true }).obj oid = some { s with recvComplete := true } :=
+    Engine.obj_setObj_self st oid s _ hobj
+  have hreg' : (st.setObj oid { s with recvComplete := true }).oidOf sid = some oid := hreg
+  have hc' : (st.setObj oid { s with recvComplete := true }).closed = false := hc
+  rw [c06_channel_credit_forwarded (st.setObj oid { s with recvComplete := true }) hc' oid sid n
+    { s with recvComplete := true } h0 hreg' hobj' hk hp hs b']
 
 end RSocketModel.Credit
 
